@@ -33,6 +33,130 @@ Theorem C04_rr_unique : forall zs Ks V W, 0 <= V <= 1 -> 0 <= W <= 1 ->
 Proof. exact rr_unique_lemma. Qed.
 Print Assumptions C04_rr_unique.
 
+(* T,P flash, several chemicals: all vapour at / below the dew pressure unless a non-volatile solute is present,
+   else all liquid at / above the bubble pressure unless a non-condensable gas is present, else the two-phase
+   split written is the clipped result of the one fixed-point solve *)
+Theorem C04_TP_boundary : forall cf orc T P st s c, setup cf st = SOk s c -> (2 <= cN c)%nat ->
+  let s0 := with_P (with_T s T) P in
+  let Pd := fst (o_dew orc 0) in
+  let Pb := fst (o_bubble orc 1) in
+  (P <= Pd /\ Fheavy c == 0 -> vle cf orc (SpTP T P) st = VOk (all_vap c s0)) /\
+  (~ (P <= Pd /\ Fheavy c == 0) -> Pb <= P /\ Flight c == 0 -> vle cf orc (SpTP T P) st = VOk (all_liq c s0)) /\
+  (~ (P <= Pd /\ Fheavy c == 0) -> ~ (Pb <= P /\ Flight c == 0) ->
+   forall st', vle cf orc (SpTP T P) st = VOk st' -> st' = set_flows c (clipv (o_v orc 2) (molv c)) s0).
+Proof. exact TP_boundary_lemma. Qed.
+Print Assumptions C04_TP_boundary.
+
+(* P,V / T,V in the bracketing branch (V_bubble <= V <= V_dew): the flows written are those of the LAST _solve_v
+   evaluation and the solved T (P) is what flexsolve returned.  That last evaluation is flexsolve's last one,
+   or -- when flexsolve returns without evaluating ("lucky guess" on a bound) -- the dew-side evaluation, whose
+   vapour fraction is V_dew, not V.  "V met within solver resolution" is the contract of IQ_interpolation. *)
+Theorem C04_PV_flows_from_last_eval : forall orc c isT V0 m m',
+  let V := adj_V c V0 in
+  let k := mk m in
+  let Vb := qsum (clipv (o_v orc (k + 2)%nat) (molv c)) / Fvle c in
+  let Vd := qsum (clipv (o_v orc (k + 3)%nat) (molv c)) / Fvle c in
+  ~ V == 1 -> ~ V == 0 -> Vb <= V -> V <= Vd ->
+  set_XV_multi orc c isT V0 m = VOk m' ->
+  ms m' = set_flows c (xv_last orc c k) (set_other isT (ms m) (snd (o_iq orc (k + 4)%nat))) /\
+  mk m' = (k + 6 + length (fst (o_iq orc (k + 4)%nat)))%nat.
+Proof. exact PV_flows_lemma. Qed.
+Print Assumptions C04_PV_flows_from_last_eval.
+
+(* the vaporise / condense correction: with H linear in the flows (HL, HG additive and homogeneous) either the
+   written flows reproduce the specified H exactly at the bracketed T (0 < f < 1), or T is what
+   xsolve_T_at_HP returned for the final flows and the specified H (f in {0, 1}: the solve contract).
+   The same statement with xS / S is the entropy clause; real entropies have a mixing term and are not linear. *)
+Theorem C04_PH_correction_exact : forall orc c T P HL HG HR,
+  (forall a b, veq a b -> HL a == HL b) -> (forall a b, veq a b -> HG a == HG b) ->
+  (forall a b f, length a = length b -> HL (vadd a (vscale f b)) == HL a + f * HL b) ->
+  (forall a b f, length a = length b -> HL (vsub a (vscale f b)) == HL a - f * HL b) ->
+  (forall a b f, length a = length b -> HG (vadd a (vscale f b)) == HG a + f * HG b) ->
+  (forall a b f, length a = length b -> HG (vsub a (vscale f b)) == HG a - f * HG b) ->
+  (forall k s, o_xH orc k s T P == HL (liq s) + HG (vap s) + HR (oth s)) ->
+  (forall k mol, o_Hp orc k false mol T P == HL mol) -> (forall k mol, o_Hp orc k true mol T P == HG mol) ->
+  forall H m, wf (ms m) -> NoDup (idx c) -> (forall i, In i (idx c) -> (i < length (liq (ms m)))%nat) ->
+  let m' := correct orc c T P H m in
+  (HL (liq (ms m')) + HG (vap (ms m')) + HR (oth (ms m')) == H /\ sT (ms m') = T) \/
+  (exists k s, ms m' = with_T s (o_solveT orc k s H T P)).
+Proof. exact correct_exact_lemma. Qed.
+Print Assumptions C04_PH_correction_exact.
+
+(* ... and for the whole of set_PH (ent = false) / set_PS (ent = true) with several chemicals *)
+Theorem C04_PH_exact_linear : forall orc P HL HG HR,
+  (forall T a b, veq a b -> HL T a == HL T b) -> (forall T a b, veq a b -> HG T a == HG T b) ->
+  (forall T a b f, length a = length b -> HL T (vadd a (vscale f b)) == HL T a + f * HL T b) ->
+  (forall T a b f, length a = length b -> HL T (vsub a (vscale f b)) == HL T a - f * HL T b) ->
+  (forall T a b f, length a = length b -> HG T (vadd a (vscale f b)) == HG T a + f * HG T b) ->
+  (forall T a b f, length a = length b -> HG T (vsub a (vscale f b)) == HG T a - f * HG T b) ->
+  (forall T k s, o_xH orc k s T P == HL T (liq s) + HG T (vap s) + HR T (oth s)) ->
+  (forall T k mol, o_Hp orc k false mol T P == HL T mol) -> (forall T k mol, o_Hp orc k true mol T P == HG T mol) ->
+  forall cf ent H st s1 c m', wf st -> setup cf st = SOk s1 c -> (2 <= cN c)%nat ->
+  set_PH cf orc ent P H (mkm st 0) = VOk m' ->
+  (HL (sT (ms m')) (liq (ms m')) + HG (sT (ms m')) (vap (ms m')) + HR (sT (ms m')) (oth (ms m')) == H) \/
+  (exists k s Tg, ms m' = with_T s (o_solveT orc k s H Tg P)).
+Proof. exact PH_exact_linear_lemma. Qed.
+Print Assumptions C04_PH_exact_linear.
+
+(* the linearity hypotheses are satisfiable: h_l = 1, h_g = 3 per mole *)
+Example C04_PH_linear_nonvacuous :
+  let HL := fun (_ : Q) (a : vec) => qsum a in
+  let HG := fun (_ : Q) (a : vec) => 3 * qsum a in
+  (forall T a b, veq a b -> HL T a == HL T b) /\ (forall T a b, veq a b -> HG T a == HG T b) /\
+  (forall T a b f, length a = length b -> HL T (vadd a (vscale f b)) == HL T a + f * HL T b) /\
+  (forall T a b f, length a = length b -> HL T (vsub a (vscale f b)) == HL T a - f * HL T b) /\
+  (forall T a b f, length a = length b -> HG T (vadd a (vscale f b)) == HG T a + f * HG T b) /\
+  (forall T a b f, length a = length b -> HG T (vsub a (vscale f b)) == HG T a - f * HG T b).
+Proof.
+  cbv zeta. repeat split; intros.
+  - apply qsum_veq; assumption.
+  - rewrite (qsum_veq a b); [reflexivity|assumption].
+  - apply qsum_add; assumption.
+  - apply qsum_sub; assumption.
+  - rewrite qsum_add by assumption. ring.
+  - rewrite qsum_sub by assumption. ring.
+Qed.
+
+(* an exact fixed point of xVlogK_iter_2n (exp, log as any functions with exp (log k) = k for k >= 1e-16):
+   K_i = pcf_i Psat_i gamma_i(x) / (phi_i(y) P) evaluated at the normalised x and y = normalise(K x) (iso-fugacity),
+   V is the closed-form Rachford-Rice root for these K, x_i = z_i / (1 + V (K_i - 1)), and x sums to 1 when z does *)
+Theorem C04_fix_iso_2n : forall E L G Ph z1 z2 w w',
+  (forall a b, a == b -> E a == E b) -> (forall k, c_1e16 <= k -> E (L k) == k) ->
+  iter2n E L G Ph z1 z2 w = Ok w' -> w2_eq w' w ->
+  exists x1 x2 y1 y2 K1 K2 V,
+    xy2 (wx1 w) (wx2 w) (E (wl1 w)) (E (wl2 w)) = Ok ((x1, x2), (y1, y2)) /\
+    K1 = clipK (fst (G x1 x2) / fst (Ph y1 y2)) /\ K2 = clipK (snd (G x1 x2) / snd (Ph y1 y2)) /\
+    E (wl1 w) == K1 /\ E (wl2 w) == K2 /\
+    rr2 z1 z2 K1 K2 = Ok V /\ wV w == V /\ rr [z1; z2] [K1; K2] V == 0 /\
+    wx1 w == z1 / (1 + V * (K1 - 1)) /\ wx2 w == z2 / (1 + V * (K2 - 1)) /\
+    (z1 + z2 == 1 -> wx1 w + wx2 w == 1).
+Proof. exact fix_iso_2n_lemma. Qed.
+Print Assumptions C04_fix_iso_2n.
+
+(* the same for xVlogK_iter (n components, non-partitioning fractions): iso-fugacity and the x relation hold at an exact
+   fixed point; V is whatever solve_phase_fraction_Rashford_Rice returned for these K (its residual is the solver's contract) *)
+Theorem C04_fix_iso_n : forall E L G Ph rrsolve z w w',
+  (forall a b, a == b -> E a == E b) -> (forall k, c_1e16 <= k -> E (L k) == k) ->
+  itern E L G Ph rrsolve z w = Ok w' -> wn_eq w' w ->
+  exists x y Ks V,
+    xyn (nx w) (map E (nl w)) = Ok (x, y) /\
+    Ks = map clipK (map2 Qdiv (G x) (Ph y)) /\
+    veq (map E (nl w)) Ks /\
+    V = rrsolve z Ks (if qltb (nV w) 0 then 0 else if qltb 1 (nV w) then 1 else nV w) /\ nV w == V /\
+    veq (nx w) (map2 (fun zi k => zi / (1 + V * (k - 1))) z Ks) /\
+    (forall i, (i < length Ks)%nat -> ~ 1 + V * (nthq Ks i - 1) == 0).
+Proof. exact fix_iso_n_lemma. Qed.
+Print Assumptions C04_fix_iso_n.
+
+(* an exact fixed point exists: K = (2, 1/2), z = (1/2, 1/2) gives V = 1/2, x = (1/3, 2/3) *)
+Example C04_fix_iso_nonvacuous :
+  let w := mkw2 (1#3) (2#3) (1#2) 2 (1#2) in
+  exists w', iter2n (fun l => l) (fun k => k) (fun _ _ => (2, 1#2)) (fun _ _ => (1, 1)) (1#2) (1#2) w = Ok w' /\ w2_eq w' w.
+Proof.
+  cbv zeta. eexists. split; [vm_compute; reflexivity|].
+  unfold w2_eq. cbn [wx1 wx2 wV wl1 wl2]. repeat split; vm_compute; reflexivity.
+Qed.
+
 (* non-vacuity *)
 Example C04_rr2_nonvacuous :
   rr2 (1#2) (1#2) 2 (1#2) = Ok ((- (2 * (1#2) + (1#2) * (1#2)) + ((1#2) + (1#2))) / rr2_den (1#2) (1#2) 2 (1#2))
